@@ -120,11 +120,10 @@ func nonEmptyGroupTactic(bc *boundsCtx, e ast.Expr, base ast.Expr, need needLen)
 				return false
 			}
 			if se, ok := ast.Unparen(rhs).(*ast.SliceExpr); ok && sameElem(se.X) && se.Low == nil && se.High != nil {
-				if b, ok := ast.Unparen(se.High).(*ast.BinaryExpr); ok && b.Op == token.SUB && (bc.isLenOf(b.X, l) || bc.isLenOf(b.X, se.X)) {
-					if c, isC := core.ConstInt(info, b.Y); isC && c == 1 {
-						shrinks = append(shrinks, as)
-						continue
-					}
+				// the new length is len(element) - 1, however it is spelled (also `n := len(cur) - 1 ... cur[:n]`)
+				if h, ok := bc.linOf(se.High, bc.g.PointOf(as)); ok && h.C == -1 && len(h.Atoms) == 1 && h.Coef[0] == 1 && h.Atoms[0].LenOf != nil && sameElem(h.Atoms[0].LenOf) {
+					shrinks = append(shrinks, as)
+					continue
 				}
 			}
 			sound = false
@@ -165,14 +164,23 @@ func nonEmptyGroupTactic(bc *boundsCtx, e ast.Expr, base ast.Expr, need needLen)
 	if loop == nil || blk == nil || lastStmt(blk.List) != ast.Stmt(shrink) {
 		return "", false
 	}
-	kv := core.VarOf(info, shrink.Lhs[0].(*ast.IndexExpr).Index)
-	if kv == nil || !bc.nonNegative(kv) {
+	// the shrunk element is at loop variable + s, in linear form (`g[i]`, or `cur := next - 1 ... g[cur]`)
+	kv, _, _, _, _ := countedLoop(info, loopNode)
+	if kv == nil {
 		return "", false
 	}
-	// the loop variable indexes the shrunk element and strictly increases: i++ of a counted for, or the range-over-int form
-	if liv, _, _, _, _ := countedLoop(info, loopNode); liv != kv {
+	offsetFromLoopVar := func(idx ast.Expr, at ast.Node) (int64, bool) {
+		l, ok := bc.linOf(idx, bc.g.PointOf(at))
+		if !ok || len(l.Atoms) != 1 || l.Coef[0] != 1 || l.Atoms[0].Var != kv {
+			return 0, false
+		}
+		return l.C, true
+	}
+	shrunkAt, ok := offsetFromLoopVar(shrink.Lhs[0].(*ast.IndexExpr).Index, shrink)
+	if !ok {
 		return "", false
 	}
+	// the loop variable strictly increases: i++ of a counted for, or the range-over-int form
 	if fs, isFor := loopNode.(*ast.ForStmt); isFor {
 		post, ok := fs.Post.(*ast.IncDecStmt)
 		if !ok || post.Tok != token.INC || core.VarOf(info, post.X) != kv {
@@ -223,16 +231,10 @@ func nonEmptyGroupTactic(bc *boundsCtx, e ast.Expr, base ast.Expr, need needLen)
 		}
 		return "T4 group invariant: groups are created non-empty; the only shrink cannot precede this read", true
 	}
-	// index of the read: k or k+c, c >= 0
-	idx := ast.Unparen(ix.Index)
-	if core.VarOf(info, idx) != kv {
-		b, ok := idx.(*ast.BinaryExpr)
-		if !ok || b.Op != token.ADD || core.VarOf(info, b.X) != kv {
-			return "", false
-		}
-		if c, isC := core.ConstInt(info, b.Y); !isC || c < 0 {
-			return "", false
-		}
+	// index of the read: not below the shrunk one (elements below it were shrunk by earlier iterations)
+	readIdx, ok := offsetFromLoopVar(ix.Index, readAt)
+	if !ok || readIdx < shrunkAt {
+		return "", false
 	}
 	return "T4 group invariant: groups are created non-empty; only `g[i] = g[i][:len(g[i])-1]` shrinks, as the last statement of the fix-up loop body at the strictly increasing index, after this read", true
 }
